@@ -297,6 +297,10 @@ func siblingCollisionSetCase(i int) *sem.Case {
 		{"-x", "X", "x", "_x", "@x"},
 		{" kind", "Kind", "kind", "@kind", "KIND"},
 		{"#v1", "V1", "v1", "_v1", "v-1"},
+		// a sibling whose OWN name spells what a renamed duplicate would be called
+		{"a1", "A1", "a1.2", "a1_2", "a1-2"},
+		{"x", "X", "x_2", "x.2", "X-3"},
+		{"item", "Item", "item_2", "Item_3", "item 2"},
 	}
 	fam := families[i%len(families)]
 	// subsets: always the exact name (index 1), plus a choice of the others
@@ -871,5 +875,43 @@ func spellingChainCase(i int) *sem.Case {
 			docgen.Doc{V: jsonx.Obj{{K: xi, V: jsonx.Obj{{K: "ups", V: pi}}}}, Class: "deep", Label: "def0-directly"})
 	}
 	c.Docs = append(c.Docs, docgen.Doc{V: jsonx.Obj{{K: rho, V: []any{jsonx.Obj{{K: "pi", V: jsonx.N(7)}}}}}, Class: "required", Label: "def1-required"})
+	return c
+}
+
+
+// sizedTwinCase: two NAMED integer definitions that want one Go type name (`level` / `Level`, or `Level` in two files of
+// one run) and differ only in their bounds, both bounded, generated with and without --min-sized-ints: each referrer
+// is held to its own definition's bounds (the flag rewrites the bounds of the node it has sized; what a later
+// comparison makes of the rewritten node must not let the second definition pass for the first).
+func sizedTwinCase(i int) *sem.Case {
+	pairs := [][2][2]float64{{{0, 255}, {0, 100}}, {{0, 100}, {0, 255}}, {{-128, 127}, {-100, 100}}, {{0, 65535}, {1, 65535}}, {{0, 255}, {0, 254}}, {{1, 10}, {1, 20}}}
+	pr := pairs[i%len(pairs)]
+	twoFiles := (i/len(pairs))%2 == 1
+	mk := func(b [2]float64) *sg.Schema { return &sg.Schema{Types: []string{"integer"}, Min: sg.Fp(b[0]), Max: sg.Fp(b[1])} }
+	a, b := mk(pr[0]), mk(pr[1])
+	docsFor := func(key string, bd [2]float64) []docgen.Doc {
+		var out []docgen.Doc
+		for _, v := range []float64{bd[0] - 1, bd[0], bd[1], bd[1] + 1, pr[0][1], pr[1][1], pr[0][1] + 1, pr[1][1] + 1, pr[0][0] - 1, pr[1][0] - 1} {
+			out = append(out, docgen.Doc{V: jsonx.Obj{{K: key, V: jsonx.N(int64(v))}}, Class: "bound", Label: "sized-twin-" + key})
+		}
+		return out
+	}
+	if !twoFiles {
+		root := &sg.Schema{Types: []string{"object"}, Defs: []sg.Prop{{Name: "Level", S: a}, {Name: "level", S: b}}, Props: []sg.Prop{{Name: "first", S: &sg.Schema{Ref: "#/$defs/Level", Target: a}}, {Name: "second", S: &sg.Schema{Ref: "#/$defs/level", Target: b}},
+			{Name: "steps", S: &sg.Schema{Types: []string{"array"}, Items: &sg.Schema{Ref: "#/$defs/level", Target: b}}}}}
+		c := &sem.Case{Root: root, Sig: fmt.Sprintf("sized-twin/%d/one-file", i%len(pairs)), NoAuto: true}
+		c.Docs = append(docsFor("first", pr[0]), docsFor("second", pr[1])...)
+		c.Docs = append(c.Docs, docgen.Doc{V: jsonx.Obj{{K: "steps", V: []any{jsonx.N(int64(pr[1][1])), jsonx.N(int64(pr[1][1] + 1))}}}, Class: "bound", Label: "sized-twin-item"})
+		return c
+	}
+	mkRoot := func(d *sg.Schema, key string) *sg.Schema {
+		return &sg.Schema{Types: []string{"object"}, Defs: []sg.Prop{{Name: "Level", S: d}}, Props: []sg.Prop{{Name: key, S: &sg.Schema{Ref: "#/$defs/Level", Target: d}}, {Name: key + "Steps", S: &sg.Schema{Types: []string{"array"}, Items: &sg.Schema{Ref: "#/$defs/Level", Target: d}}}}}
+	}
+	c := &sem.Case{Root: mkRoot(a, "sensor"), RootFile: "sensor.json", Sig: fmt.Sprintf("sized-twin/%d/two-files", i%len(pairs)), NoAuto: true}
+	g := &sem.Case{Root: mkRoot(b, "volume"), RootFile: "volume.json", Sig: c.Sig, NoAuto: true}
+	c.Group = []*sem.Case{g}
+	c.Docs = docsFor("sensor", pr[0])
+	g.Docs = docsFor("volume", pr[1])
+	g.Docs = append(g.Docs, docgen.Doc{V: jsonx.Obj{{K: "volumeSteps", V: []any{jsonx.N(int64(pr[1][1])), jsonx.N(int64(pr[1][1] + 1))}}}, Class: "bound", Label: "sized-twin-item"})
 	return c
 }
